@@ -54,3 +54,91 @@ M("C15", "ep benign: pop clock after advance", EP, """    ep->qstart_time += ep-
     pcm = ep->buf + (ep->pos * ep->frame_size);
     ep->pos = (ep->pos + 1) % ep->maxlen;
     ep->qstart_time += ep->frame_length;""", kind="benign")
+
+HT = "src/hash_table.c"
+# ---- C20 ----------------------------------------------------------------------
+M("C20", "ht: inuse++ only for chain", HT, """        new->next = cur->next;
+        cur->next = new;
+    }
+    ++h->inuse;""", """        new->next = cur->next;
+        cur->next = new;
+        ++h->inuse;
+    }""", "PAIR.inuse")
+M("C20", "ht: delete head forgets val copy", HT, "            prev->val = entry->val;\n", "", "TABLE.headcopy")
+M("C20", "ht: delete head forgets len copy", HT, "            prev->len = entry->len;\n", "", "TABLE.headcopy")
+M("C20", "ht: delete chain free before unlink", HT, """        prev->next = entry->next;
+        ckd_free(entry);
+    }""", """        ckd_free(entry);
+        prev->next = entry->next;
+    }""", "TYPESTATE.release")
+M("C20", "ht: delete head clears key with chain", HT, "        if (entry->next) { /* There is a next entry, great, copy it. */", "        if (entry->next && entry->next->next) { /* There is a next entry, great, copy it. */", "GUARD.head-null")
+M("C20", "ht: lookup drops len test (nocase)", HT, """    if (h->nocase) {
+        while (entry && ((entry->len != len) || (keycmp_nocase(entry, key) != 0)))
+            entry = entry->next;
+    } else {""", """    if (h->nocase) {
+        while (entry && ((keycmp_nocase(entry, key) != 0)))
+            entry = entry->next;
+    } else {""", "GUARD.len-first")
+M("C20", "ht: keycmp_nocase folds one side", HT, "        c2 = *(key++);\n        c2 = UPPER_CASE(c2);", "        c2 = *(key++);", "GUARD.len-first")
+M("C20", "ht: replace_bkey inserts", HT, """    ckd_free(str);
+
+    return (enter(h, hash, key, len, val, 1));""", """    ckd_free(str);
+
+    return (enter(h, hash, key, len, val, 0));""", "TWIN.wrappers")
+M("C20", "ht: delete_bkey hashes raw key", HT, """    str = makekey((uint8 *)key, len, NULL);
+    hash = key2hash(h, str);
+    ckd_free(str);
+
+    return (delete (h, hash, key, len));""", """    str = makekey((uint8 *)key, len, NULL);
+    hash = key2hash(h, key);
+    ckd_free(str);
+
+    return (delete (h, hash, key, len));""", "TWIN.wrappers")
+M("C20", "ht: iter forgets ++idx", HT, """        itor->ent = itor->ht->table + itor->idx;
+        /* Increase idx for the next time around. */
+        ++itor->idx;""", """        itor->ent = itor->ht->table + itor->idx;""", "TWIN.traversal")
+M("C20", "ht: tolist skips chain count", HT, """            for (e = e->next; e; e = e->next) {
+                g = glist_add_ptr(g, (void *)e);
+                j++;
+            }
+        }
+    }
+
+    if (count)""", """            for (e = e->next; e; e = e->next) {
+                g = glist_add_ptr(g, (void *)e);
+            }
+        }
+    }
+
+    if (count)""", "TWIN.traversal")
+M("C20", "ht: chain insert order swapped", HT, """        new->next = cur->next;
+        cur->next = new;""", """        cur->next = new;
+        new->next = cur->next;""", "PROV.insert")
+M("C20", "ht: nocase hash not folded", HT, "            c = UPPER_CASE(c);\n            hash += c << s;", "            hash += c << s;", "GUARD.len-first")
+M("C20", "ht: empty memset before chain", HT, """        for (e = h->table[i].next; e; e = e2) {
+            e2 = e->next;
+            ckd_free((void *)e);
+        }
+        memset(&h->table[i], 0, sizeof(h->table[i]));""", """        memset(&h->table[i], 0, sizeof(h->table[i]));
+        for (e = h->table[i].next; e; e = e2) {
+            e2 = e->next;
+            ckd_free((void *)e);
+        }""", "GUARD.head-null")
+M("C20", "ht: existing key modified without replace", HT, """        if (replace) {
+            /* Replace the pointer if replacement is requested,
+             * because this might be a different instance of the same
+             * string (this verges on magic, sorry) */
+            cur->key = key;
+            cur->val = val;
+        }""", """        cur->key = key;
+        if (replace) {
+            cur->val = val;
+        }""", "PROV.insert")
+M("C20", "ht benign: whole struct copy", HT, """            prev->key = entry->key;
+            prev->len = entry->len;
+            prev->val = entry->val;
+            prev->next = entry->next;
+            ckd_free(entry);""", """            *prev = *entry;
+            prev->next = entry->next;
+            ckd_free(entry);""", kind="benign")
+M("C20", "ht benign: inc spelled differently", HT, "    ++h->inuse;\n\n    return val;", "    h->inuse++;\n\n    return val;", kind="benign")
